@@ -1,8 +1,9 @@
 (* C13 / C14 - every Hosts tree reachable by Add / Delete / RegisterInterceptor: tree invariants,
-   Match never faults, a rejected Host leaves the parameters alone.  Theorems only. *)
+   Match never faults, a rejected Host leaves the parameters alone (Match = tree lookup [hosts_match_raw]
+   followed by the restore step [restore_missing]).  Theorems only. *)
 From Coq Require Import String.
-From Mux Require Import Model.Bytes Model.Context Model.Syntax Model.Tree Model.Match
-  Proofs.MatchSound Proofs.TreeSafe Proofs.TreeOrder Proofs.HostsTree.
+From Mux Require Import Model.Bytes Model.Context Model.Syntax Model.Tree Model.Match Model.Group
+  Proofs.MatchSound Proofs.TreeSafe Proofs.TreeOrder Proofs.HostsTree Proofs.Group Proofs.HostsRestore.
 
 Theorem C14_hosts_order_reachable : forall hist, tree_order_ok (hosts_reach hist).
 Proof. exact hosts_order_reachable. Qed.
@@ -13,7 +14,7 @@ Proof. exact hosts_safe_reachable. Qed.
 Print Assumptions C14_hosts_safe_reachable.
 
 Theorem C14_hosts_match_total : forall hist host ps, hosts_match (hosts_reach hist) host ps <> None.
-Proof. exact hosts_match_total. Qed.
+Proof. exact hosts_match_total'. Qed.
 Print Assumptions C14_hosts_match_total.
 
 (* [name_in] is the name of a non-literal node below the root *)
@@ -22,49 +23,59 @@ Theorem C14_name_in_iff : forall t k, name_in t k <->
 Proof. exact name_in_iff. Qed.
 Print Assumptions C14_name_in_iff.
 
-(* C14_hosts_reject_clean as given (disjoint_from only) is FALSE: giving up a literal node deletes
-   the parameter named "" *)
-Theorem C14_hosts_reject_clean_refuted :
+(* Hosts.Match = tree lookup + restore: a rejected Host leaves the parameters exactly as they were.
+   No disjointness hypothesis; [ctx_nodup ps]: the incoming context is a map (no key twice). *)
+Theorem C14_hosts_reject_clean : forall hist host ps ps', ctx_nodup ps ->
+  hosts_match (hosts_reach hist) host ps = Some (false, ps') -> ps' = ps.
+Proof. exact hosts_reject_clean. Qed.
+Print Assumptions C14_hosts_reject_clean.
+
+(* accepted or rejected, on any tree: no earlier parameter is ever lost *)
+Theorem C14_hosts_accept_keeps_earlier : forall t host ps ps' ok,
+  hosts_match t host ps = Some (ok, ps') ->
+  forall k v, ctx_get ps k = Some v -> exists v', ctx_get ps' k = Some v'.
+Proof. exact hosts_accept_keeps_earlier. Qed.
+Print Assumptions C14_hosts_accept_keeps_earlier.
+
+(* what the result holds: the lookup's captures, and under every other earlier name the earlier value *)
+Theorem C14_hosts_restore_get : forall ps ps' k,
+  ctx_get (restore_missing ps ps') k =
+  match ctx_get ps' k with Some v => Some v | None => ctx_get ps k end.
+Proof. exact restore_missing_get. Qed.
+Print Assumptions C14_hosts_restore_get.
+
+(* the context stays a map *)
+Theorem C14_hosts_nodup : forall hist host ps ok ps', ctx_nodup ps ->
+  hosts_match (hosts_reach hist) host ps = Some (ok, ps') -> ctx_nodup ps'.
+Proof. exact hosts_nodup. Qed.
+Print Assumptions C14_hosts_nodup.
+
+(* the restore step is necessary: the tree lookup ALONE loses parameters on reachable trees.
+   (a) giving up a literal node deletes the parameter named "", even when the incoming parameters
+       share no name with the tree; (b) an incoming parameter named like a parameter of the tree is
+       lost when that branch is abandoned. *)
+Theorem C14_hosts_lookup_alone_loses_refuted :
   ~ (forall hist host ps ps', disjoint_from (hosts_reach hist) ps ->
-       hosts_match (hosts_reach hist) host ps = Some (false, ps') -> ps' = ps).
-Proof. exact hosts_reject_clean_refuted. Qed.
-Print Assumptions C14_hosts_reject_clean_refuted.
+       hosts_match_raw (hosts_reach hist) host ps = Some (false, ps') -> ps' = ps) /\
+  ~ (forall hist host ps ps', hosts_match_raw (hosts_reach hist) host ps = Some (false, ps') -> ps' = ps).
+Proof. exact hosts_lookup_alone_loses_refuted. Qed.
+Print Assumptions C14_hosts_lookup_alone_loses_refuted.
 
-Theorem C14_hosts_reject_clean_partial : forall hist host ps ps',
-  disjoint_from (hosts_reach hist) ps -> ctx_get ps [] = None ->
-  hosts_match (hosts_reach hist) host ps = Some (false, ps') -> ps' = ps.
-Proof. exact hosts_reject_clean_partial. Qed.
-Print Assumptions C14_hosts_reject_clean_partial.
-
-(* the side condition stated over every node below the root *)
-Theorem C14_hosts_reject_clean_desc : forall hist host ps ps',
-  (forall d, desc (troot (hosts_reach hist)) d -> ctx_get ps (sname (nseg d)) = None) ->
-  hosts_match (hosts_reach hist) host ps = Some (false, ps') -> ps' = ps.
-Proof. exact hosts_reject_clean_desc. Qed.
-Print Assumptions C14_hosts_reject_clean_desc.
-
-(* unconditional: a rejection only ever loses parameters *)
-Theorem C14_hosts_reject_sub_params : forall hist host ps ps',
-  hosts_match (hosts_reach hist) host ps = Some (false, ps') -> sub_params ps' ps.
+(* the tree lookup alone: a rejection only ever loses parameters *)
+Theorem C14_hosts_raw_reject_sub_params : forall hist host ps ps',
+  hosts_match_raw (hosts_reach hist) host ps = Some (false, ps') -> sub_params ps' ps.
 Proof. exact hosts_reject_sub_params. Qed.
-Print Assumptions C14_hosts_reject_sub_params.
+Print Assumptions C14_hosts_raw_reject_sub_params.
 
-Theorem C13_hosts_clean_when_disjoint_partial : forall hist,
-  forall ps, disjoint_from (hosts_reach hist) ps -> ctx_get ps [] = None ->
-  forall host ps', hosts_match (hosts_reach hist) host ps = Some (false, ps') -> ps' = ps.
-Proof. exact hosts_clean_when_disjoint_partial. Qed.
-Print Assumptions C13_hosts_clean_when_disjoint_partial.
+(* the hypothesis [matcher_ok] of C13 holds of every reachable Hosts matcher *)
+Theorem C13_hosts_clean_reachable : forall hist, matcher_ok (MHosts (hosts_reach hist)).
+Proof. exact hosts_reach_matcher_ok. Qed.
+Print Assumptions C13_hosts_clean_reachable.
 
 Theorem C13_hosts_clean_empty_ctx : forall hist host ps',
   hosts_match (hosts_reach hist) host [] = Some (false, ps') -> ps' = [].
-Proof. exact hosts_clean_empty_ctx. Qed.
+Proof. exact hosts_clean_empty_ctx'. Qed.
 Print Assumptions C13_hosts_clean_empty_ctx.
-
-(* the unconditional hosts_clean of Proofs/Group.v fails on reachable trees *)
-Theorem C13_hosts_clean_unconditional_refuted :
-  ~ (forall hist host ps ps', hosts_match (hosts_reach hist) host ps = Some (false, ps') -> ps' = ps).
-Proof. exact hosts_clean_unconditional_refuted. Qed.
-Print Assumptions C13_hosts_clean_unconditional_refuted.
 
 Theorem C14_add_case_insensitive_reach : forall hist d d', to_lower d = to_lower d' ->
   hosts_reach (hist ++ [HAdd d]) = hosts_reach (hist ++ [HAdd d']).
